@@ -20,7 +20,7 @@ def plan(tier, seed):
         shards.append({"kind": "exh", "max_nodes": 4 if q else 5, "part": i, "parts": nex})
     nr = 8 if q else 16
     for i in range(nr):
-        shards.append({"kind": "rand", "n": 450 if q else 4000})
+        shards.append({"kind": "rand", "n": 450 if q else 9000})
     shards.append({"kind": "module", "n": 25 if q else 300})
     shards.append({"kind": "munge"})
     return {
